@@ -196,18 +196,12 @@ func (l *orderColumnsRow) compare(tp Type, lval, rval Column, reverse bool) int 
 }
 
 func (l *orderColumnsRow) compareBytes(lval, rval Column, reverse bool) int {
-	var (
-		lbval []byte
-		rbval []byte
-	)
-	switch lval.(type) {
-	case []byte:
-		lbval = lval.([]byte)
-		rbval = rval.([]byte)
-	case string:
-		lbval = []byte(lval.(string))
-		rbval = []byte(rval.(string))
-	default:
+	// The two values may have different dynamic types (JSON field access
+	// yields strings, numbers, ...), never assert the right value's type
+	// from the left one
+	lbval, lok := convertToByteArray(lval)
+	rbval, rok := convertToByteArray(rval)
+	if !lok || !rok {
 		return 0
 	}
 	if reverse {
@@ -217,21 +211,20 @@ func (l *orderColumnsRow) compareBytes(lval, rval Column, reverse bool) int {
 }
 
 func (l *orderColumnsRow) compareBool(lval, rval Column, reverse bool) int {
-	var (
-		lbool bool
-		rbool bool
-	)
-	switch lval.(type) {
-	case bool:
-		lbool = lval.(bool)
-		rbool = rval.(bool)
-	case string:
-		lbool = lval.(string) == "true"
-		rbool = rval.(string) == "true"
-	case []byte:
-		lbool = bytes.Equal(lval.([]byte), []byte("true"))
-		rbool = bytes.Equal(rval.([]byte), []byte("true"))
-	default:
+	toBool := func(val Column) (bool, bool) {
+		switch v := val.(type) {
+		case bool:
+			return v, true
+		case string:
+			return v == "true", true
+		case []byte:
+			return bytes.Equal(v, []byte("true")), true
+		}
+		return false, false
+	}
+	lbool, lok := toBool(lval)
+	rbool, rok := toBool(rval)
+	if !lok || !rok {
 		return 0
 	}
 	lint := 0
@@ -260,75 +253,34 @@ func (l *orderColumnsRow) compareBool(lval, rval Column, reverse bool) int {
 }
 
 func (l *orderColumnsRow) compareNumber(lval, rval Column, reverse bool) int {
-	var (
-		lint, rint     int64
-		lfloat, rfloat float64
-		err            error
-		isFloat        bool = false
-	)
-	switch lval.(type) {
-	case int:
-		lint = int64(lval.(int))
-		rint = int64(rval.(int))
-	case int16:
-		lint = int64(lval.(int16))
-		rint = int64(rval.(int16))
-	case int32:
-		lint = int64(lval.(int32))
-		rint = int64(rval.(int32))
-	case int64:
-		lint = lval.(int64)
-		rint = rval.(int64)
-	case uint:
-		lint = int64(lval.(uint))
-		rint = int64(rval.(uint))
-	case uint16:
-		lint = int64(lval.(uint16))
-		rint = int64(rval.(uint16))
-	case uint32:
-		lint = int64(lval.(uint32))
-		rint = int64(rval.(uint32))
-	case uint64:
-		lint = int64(lval.(uint64))
-		rint = int64(rval.(uint64))
-	case float32:
-		lfloat = float64(lval.(float32))
-		rfloat = float64(rval.(float32))
-		isFloat = true
-	case float64:
-		lfloat = lval.(float64)
-		rfloat = rval.(float64)
-		isFloat = true
-	case []byte:
-		if lint, err = strconv.ParseInt(string(lval.([]byte)), 10, 64); err == nil {
-			if rint, err = strconv.ParseInt(string(rval.([]byte)), 10, 64); err == nil {
-				return l.compareInt(lint, rint, reverse)
-			}
-		}
-		if lfloat, err = strconv.ParseFloat(string(lval.([]byte)), 64); err == nil {
-			if rfloat, err = strconv.ParseFloat(string(rval.([]byte)), 64); err == nil {
-				return l.compareFloat(lfloat, rfloat, reverse)
-			}
-		}
-		return 0
-	case string:
-		if lint, err = strconv.ParseInt(lval.(string), 10, 64); err == nil {
-			if rint, err = strconv.ParseInt(rval.(string), 10, 64); err == nil {
-				return l.compareInt(lint, rint, reverse)
-			}
-		}
-		if lfloat, err = strconv.ParseFloat(lval.(string), 64); err == nil {
-			if rfloat, err = strconv.ParseFloat(rval.(string), 64); err == nil {
-				return l.compareFloat(lfloat, rfloat, reverse)
-			}
-		}
+	// The two values may be of different kinds (a sum can be an integer
+	// in one group and a float in another), compare integers as integers
+	// and anything else as floats
+	if !isNumberColumn(lval) || !isNumberColumn(rval) {
 		return 0
 	}
-
-	if isFloat {
+	lint, lfloat, lIsFloat := convertToNumber(lval)
+	rint, rfloat, rIsFloat := convertToNumber(rval)
+	if lIsFloat || rIsFloat {
 		return l.compareFloat(lfloat, rfloat, reverse)
 	}
 	return l.compareInt(lint, rint, reverse)
+}
+
+// isNumberColumn reports whether the column value is a number or a text
+// that can be read as a number
+func isNumberColumn(val Column) bool {
+	switch v := val.(type) {
+	case int, int8, int16, int32, int64, uint, uint8, uint16, uint32, uint64, float32, float64:
+		return true
+	case []byte:
+		_, err := strconv.ParseFloat(string(v), 64)
+		return err == nil
+	case string:
+		_, err := strconv.ParseFloat(v, 64)
+		return err == nil
+	}
+	return false
 }
 
 func (l *orderColumnsRow) compareInt(lval, rval int64, reverse bool) int {
